@@ -562,6 +562,66 @@ def ob_seed_reaches_rng(si: int, k: int, seed: int) -> bool:
     return all(s is not None and s == seed for s in probe.seeds)
 
 
+from vlib.h_tools import untraced as _untraced  # noqa: E402
+
+_OV_MULT = [0, 0.0, 1, 0.5, 3]
+_OV_BASE = [2, 2.0, 10, 1e200, 1.5]
+_OV_ATT = [0, 1, 2, 1023, 1024, 1025, 1100, 5000]
+_OV_MAX = [60.0, 5]
+
+
+@obligation(quick=120, thorough=300, partitions_quick=[f"kind == {k}" for k in range(5)],
+            what="the REAL exponential strategies where exp_base ** attempts leaves the float range (and just below it), with zero / fractional / "
+                 "integer multipliers: the delay that comes back is a finite float (never nan or inf) inside [0, max] (+1 for the combination with "
+                 "wait_fixed(1)), a zero multiplier gives exactly the lower clamp resp. a value in [0, jitter], and the same seed gives the same "
+                 "delay twice - the float behaviour at the overflow edge that the real-arithmetic Engine-T encoding cannot represent",
+            bounds={"strategies": "wait_exponential / wait_exponential_jitter / wait_random_exponential / jitter + wait_fixed(1) / retry_policy(wait=jitter).next",
+                    "multiplier": str(_OV_MULT), "exp_base": str(_OV_BASE), "attempts": str(_OV_ATT), "max": str(_OV_MAX), "seed": "0..2"})
+def ob_overflow_region_real(kind: int, mi: int, bi: int, ai: int, xi: int, seed: int) -> bool:
+    """
+    pre: 0 <= kind <= 4 and 0 <= mi < 5 and 0 <= bi < 5 and 0 <= ai < 8 and 0 <= xi < 2 and 0 <= seed <= 2
+    post: _
+    """
+    kind, mi, bi = H.fork_int(kind, 0, 4), H.fork_int(mi, 0, 4), H.fork_int(bi, 0, 4)
+    ai, xi, seed = H.fork_int(ai, 0, 7), H.fork_int(xi, 0, 1), H.fork_int(seed, 0, 2)
+    with _untraced():          # CrossHair models random.Random.uniform as a fresh symbolic per call; the real generator is the subject
+        return _overflow_case(kind, _OV_MULT[mi], _OV_BASE[bi], _OV_ATT[ai], _OV_MAX[xi], seed)
+
+
+def _overflow_case(kind: int, m, b, k: int, mx, seed: int) -> bool:
+    hi = float(mx)
+    if kind == 0:
+        strat = rp.wait_exponential(multiplier=m, exp_base=b, max=mx)
+    elif kind == 1:
+        strat = rp.wait_exponential_jitter(initial=m, exp_base=b, max=mx, jitter=1.0)
+    elif kind == 2:
+        strat = rp.wait_random_exponential(multiplier=m, exp_base=b, max=mx)
+    else:
+        strat = rp.wait_exponential_jitter(initial=m, exp_base=b, max=mx, jitter=1.0) + rp.wait_fixed(1.0)
+        hi += 1.0
+    if kind == 4:
+        pol = rp.retry_policy(wait=strat, stop=rp.stop_after_attempt(10 ** 9))
+        d1 = pol.next(0.0, max(k, 1), ValueError("x"), seed=seed)
+        d2 = pol.next(0.0, max(k, 1), ValueError("x"), seed=seed)
+    else:
+        d1 = strat(k, seed=seed)
+        d2 = strat(k, seed=seed)
+    if d1 is None or d2 is None:
+        return False
+    if not (d1 == d1 and d1 != float("inf") and d1 != float("-inf")):
+        return False                      # nan / inf
+    if not (0.0 <= d1 <= hi) or d1 != d2:
+        return False
+    if m == 0:
+        if kind == 0 and d1 != 0.0:
+            return False
+        if kind == 1 and not (0.0 <= d1 <= 1.0):
+            return False
+        if kind == 2 and d1 != 0.0:
+            return False
+    return True
+
+
 # ================================================================================================ Engine T: documented side
 
 
